@@ -580,7 +580,7 @@ def _gen_block(rng, kind):
         return {'kind': kind, 'payload': {'Binaries': [{'Name': rng.ident(), 'Addr': rng.randrange(1 << 40)}
                                                          for _ in range(rng.randint(0, 3))]}}
     if kind == 'codes':
-        return {'kind': kind, 'text': ''.join('0x%x\t%s\n' % (rng.randrange(1 << 32) & ~3, rng.ident())
+        return {'kind': kind, 'text': ('\ufeff' if rng.chance(0.12) else '') + ''.join('0x%x\t%s\n' % (rng.randrange(1 << 32) & ~3, rng.ident())
                                                for _ in range(rng.randint(0, 3)))}
     return {'kind': 'unknown', 'hex': rng.randbytes(rng.randint(0, 20)).hex()}
 
